@@ -310,11 +310,16 @@ pub fn install_quiet_panic_hook() {
             .location()
             .map(|l| format!("{}:{}", l.file(), l.line()))
             .unwrap_or_default();
+        if CATCH_DEPTH.with(|d| d.get()) == 0 {
+            // a panic outside `catch` is a harness bug: make it visible
+            eprintln!("HARNESS-ERROR uncaught panic at {}: {}", loc, msg);
+        }
         LAST_PANIC.with(|p| *p.borrow_mut() = Some((msg, loc)));
     }));
 }
 
 thread_local! {
+    pub static CATCH_DEPTH: std::cell::Cell<usize> = const { std::cell::Cell::new(0) };
     pub static LAST_PANIC: std::cell::RefCell<Option<(String, String)>> = const { std::cell::RefCell::new(None) };
 }
 
@@ -339,7 +344,10 @@ impl PanicInfo {
 /// Runs `f`, catching panics; the panic message and location are returned.
 pub fn catch<R>(f: impl FnOnce() -> R) -> Result<R, PanicInfo> {
     LAST_PANIC.with(|p| *p.borrow_mut() = None);
-    match std::panic::catch_unwind(std::panic::AssertUnwindSafe(f)) {
+    CATCH_DEPTH.with(|d| d.set(d.get() + 1));
+    let res = std::panic::catch_unwind(std::panic::AssertUnwindSafe(f));
+    CATCH_DEPTH.with(|d| d.set(d.get() - 1));
+    match res {
         Ok(r) => Ok(r),
         Err(_) => {
             let (msg, loc) = LAST_PANIC
